@@ -251,7 +251,9 @@ class Path:
         if isinstance(v, (EnumVal, SEnum, Closure, ClassRef, Builtin, BoundMethod, ModuleRef)):
             return True
         if isinstance(v, Opaque):
-            raise Unsupported(f"truth of opaque {v.tag}")
+            if str(v.tag).startswith("lenient:"):
+                raise Unsupported(f"truth of opaque {v.tag}")
+            return True   # opaque objects stand for instances of classes without __bool__/__len__
         raise Unsupported(f"truth of {type(v).__name__}")
 
     def truth_nofork(self, v):
